@@ -1,7 +1,7 @@
 (* Entry point of the correspondence files written by harness/cmd/decode:
    one constructor per real Go function driven by the harness.
    Executable definitions only. *)
-From Verif Require Import Lib.Base Decode.GoSlice Decode.Node Decode.ProofEntries Gen.DecodeConsts.
+From Verif Require Import Lib.Base Decode.GoSlice Decode.Node Decode.ProofEntries Decode.Quote Gen.DecodeConsts.
 
 Inductive cin : Type :=
 | CDepth (b : bytes)                      (* Depth.UnmarshalBinary *)
@@ -13,7 +13,8 @@ Inductive cin : Type :=
 | COpts (v : N) (rm : bool) (es : entries)   (* ProofVerifier.VerifyProof with the root the walk computes *)
 | CEncKey (k : bytes)                     (* Key.MarshalBinary *)
 | CEncLeaf (l : leaf)                     (* LeafNode.MarshalBinary *)
-| CEncInode (mode : N) (n : inode).       (* 0 MarshalBinary, 1 CompactMarshalBinaryV0, 2 CompactMarshalBinaryV1 *)
+| CEncInode (mode : N) (n : inode)        (* 0 MarshalBinary, 1 CompactMarshalBinaryV0, 2 CompactMarshalBinaryV1 *)
+| CQuote (pem_ok trailing : bool) (b : bytes).   (* pcs.Quote.UnmarshalBinaryWithTrailing; pem_ok = observed outcome of the PEM/X.509 chain parse *)
 
 Inductive cout : Type :=
 | ODepth (r : res (N * N))
@@ -23,7 +24,8 @@ Inductive cout : Type :=
 | ONode (r : res node)
 | OWalk (r : res (N * ptr)) (wl : list (bytes * bytes))
 | OOpts (r : res unit)
-| OBytes (b : bytes).
+| OBytes (b : bytes)
+| OQuote (r : res (quote * N)).
 
 Definition run_case (c : cin) : cout :=
   match c with
@@ -44,6 +46,7 @@ Definition run_case (c : cin) : cout :=
       OBytes (if mode =? 0 then inode_marshal n
               else if mode =? 1 then inode_compact_marshal_v0 n
               else inode_compact_marshal_v1 n)
+  | CQuote pem_ok trailing b => OQuote (fst (run (quote_unmarshal pem_ok trailing b)))
   end.
 
 Definition pair_eqb {A B} (ea : A -> A -> bool) (eb : B -> B -> bool) (x y : A * B) : bool :=
@@ -60,5 +63,6 @@ Definition cout_eqb (a b : cout) : bool :=
       res_eqb (pair_eqb N.eqb ptr_eqb) x y && list_eqb (pair_eqb bytes_eqb bytes_eqb) wx wy
   | OOpts x, OOpts y => res_eqb (fun _ _ => true) x y
   | OBytes x, OBytes y => bytes_eqb x y
+  | OQuote x, OQuote y => res_eqb (pair_eqb quote_eqb N.eqb) x y
   | _, _ => false
   end.
